@@ -32,9 +32,9 @@ type gArr struct { // pointer to an array: a local, or a field of a local struct
 	esz  int
 	base int64
 }
-type gRecv struct{ name string }              // the method receiver (its fields are symbolic)
-type gField struct{ recv, field string }      // address of a receiver field
-type gCipher struct{}                         // the cipher.Block stored in the AEAD object
+type gRecv struct{ name string }         // the method receiver (its fields are symbolic)
+type gField struct{ recv, field string } // address of a receiver field
+type gCipher struct{}                    // the cipher.Block stored in the AEAD object
 type hGObj struct {
 	name  string
 	size  *pt // bytes
@@ -45,17 +45,17 @@ type hGObj struct {
 }
 
 type gEffect struct {
-	kind    string // "write", "copy", "asm", "call"
-	obj     int
-	off, n  *pt
-	srcObj  int
-	srcOff  *pt
-	what    string
-	pos     string
-	args    []sVal
+	kind   string // "write", "copy", "asm", "call"
+	obj    int
+	off, n *pt
+	srcObj int
+	srcOff *pt
+	what   string
+	pos    string
+	args   []sVal
 	// stream domain
-	val       *pt   // value written (put: big-endian over n bytes; write: one element)
-	srcIdx    int   // copy: the source content is taken at this point of the effect log
+	val       *pt // value written (put: big-endian over n bytes; write: one element)
+	srcIdx    int // copy: the source content is taken at this point of the effect log
 	hasSrcIdx bool
 	rep       *gRep // kind "rep": k repetitions of a loop body
 }
